@@ -135,8 +135,18 @@ class Tmatrix(ScatteringTheory):
             raise TmatrixFailure()
         for s in [s11, s12, s21, s22]:
             s *= (-2j*np.pi/med_wavelen)
-        scat_matr = np.array([[s11, s12], [s21, s22]]).transpose()
-        return scat_matr
+        # ampld returns the amplitude matrix in the lab frame,
+        # (E_theta, E_phi) = S (E_x, E_y) for incidence along z. Convert it
+        # to holopy's convention (components parallel and perpendicular to
+        # the scattering plane, as for Mie), which calc_scat_field expects:
+        # diag(1, -1) * S * [[cos(phi), sin(phi)], [sin(phi), -cos(phi)]].
+        phi = np.asarray(args[13]) * np.pi / 180
+        cphi, sphi = np.cos(phi), np.sin(phi)
+        scat_matr = np.array([[s11 * cphi + s12 * sphi,
+                               s11 * sphi - s12 * cphi],
+                              [-(s21 * cphi + s22 * sphi),
+                               -(s21 * sphi - s22 * cphi)]])
+        return np.moveaxis(scat_matr, -1, 0)
 
     def raw_fields(self, pos, scatterer, medium_wavevec, medium_index,
                     illum_polarization):
@@ -159,10 +169,7 @@ class Tmatrix(ScatteringTheory):
 
         for i, point in enumerate(pos.T):
             kr, theta, phi = point
-            # TODO: figure out why postfactor is needed -- it is not used in dda.py
-            postfactor = np.array([[np.cos(phi),np.sin(phi)],
-                                   [-np.sin(phi),np.cos(phi)]])
-            escat_sph = mieangfuncs.calc_scat_field(kr, phi,
-                                    np.dot(scat_matr[i],postfactor), [1,0])
+            escat_sph = mieangfuncs.calc_scat_field(kr, phi, scat_matr[i],
+                                                    [1,0])
             fields[i] = mieangfuncs.fieldstocart(escat_sph, theta, phi)
         return fields.T
